@@ -376,6 +376,13 @@ pub fn strategy() -> BoxedStrategy<Case> {
 pub fn streams() -> Vec<Box<dyn AnyStream>> {
     vec![
         Box::new(Stream::<Case> {
+            name: "nested-pairs",
+            quick: 0,
+            thorough: 0,
+            source: Source::Enum(Box::new(|_| Box::new(crate::props::c01::nested_pairs().into_iter().map(|(fi, v)| Case { fi, v, tape: vec![2, 1] })))),
+            check: Box::new(check),
+        }),
+        Box::new(Stream::<Case> {
             name: "small-scope",
             quick: 0,
             thorough: 0,
